@@ -202,9 +202,46 @@ class Family:
         out: List[Outcome] = []
         fn = self.ci.methods[method]
         for p in self.paths(method):
+            if refuse is not None and not self._consistent(fn, p, refuse):
+                continue
             for oc in self._replay_path(fn, p, st0, cfg, refuse):
                 out.append(oc)
         return out
+
+    def _signature(self, fn: FuncInfo, p: Path):
+        """Static list of the oracle decisions a path takes: [(cmd, 'ok'|'rejected'|'failed'|'illegal'|'rejected-other')]"""
+        key = id(p)
+        if not hasattr(self, "_sigs"):
+            self._sigs = {}
+        if key in self._sigs:
+            return self._sigs[key]
+        rej = self.prog.cls("RequestRejectedException")
+        sig = []
+        last = None
+        for ev in p.events:
+            if ev.kind == "await" and isinstance(ev.node.value, ast.Call) and (call_chain(ev.node.value) or ("",))[-1] == "_read_from_socket":
+                sig.append((self._cmd_of(ev.node.value, fn)[0], "ok"))
+            elif ev.kind == "raise" and isinstance(ev.node, ast.Await) and isinstance(ev.node.value, ast.Call) \
+                    and (call_chain(ev.node.value) or ("",))[-1] == "_read_from_socket":
+                last = self._cmd_of(ev.node.value, fn)[0]
+                sig.append((last, "rejected" if ev.data is rej else "failed"))
+            elif ev.kind == "test" and last is not None and "message" in norm(ev.node) and "ILLEGAL" in norm(ev.node).upper():
+                sig.append((last, "illegal" if ev.data else "rejected-other"))
+        self._sigs[key] = sig
+        return sig
+
+    def _consistent(self, fn: FuncInfo, p: Path, refuse: Dict[str, str]) -> bool:
+        for cmd, kind in self._signature(fn, p):
+            want = refuse.get(cmd, "ok")
+            if kind == "ok" and want != "ok":
+                return False
+            if kind == "failed" and want != "failed":
+                return False
+            if kind == "rejected" and want not in ("illegal", "rejected-other"):
+                return False
+            if kind in ("illegal", "rejected-other") and want != kind:
+                return False
+        return True
 
     def _cmd_of(self, call: ast.Call, fn: FuncInfo) -> Tuple[str, Any]:
         """Key of the command passed to _read_from_socket."""
